@@ -346,7 +346,16 @@ def reference(world):
     failed = {}        # name -> set of allowed statuses ('failed' / 'missing')
     requested_canon = set()
     order = []
-    while todo:
+    broken_imports = {}   # name a failure is recorded under -> modules its (parsed) IMPORTS clause names
+    while todo or broken_imports:
+        if not todo:
+            # C07: 'every module reachable through the IMPORTS of successfully PARSED modules' - a module whose symbol table
+            # cannot be built was parsed; its imports count once it is clear that the module stays failed
+            for name in sorted(broken_imports):
+                imps = broken_imports.pop(name)
+                if name in failed:
+                    todo.extend(imps)
+            continue
         m = todo.pop(0)
         if m in seen:
             continue
@@ -378,6 +387,7 @@ def reference(world):
         if kind in ('dupsym', 'unktype') or (len(mods) == 1 and mods[0] in world.get('symerr', [])):
             # a file with one module whose symbol table cannot be built: the failure goes under the name asked for
             failed[m] = set(['failed'])
+            broken_imports[m] = list(imports.get(m, []))
             continue
         bad = [c for c in mods if c in world.get('symerr', [])]
         for c in bad:
@@ -385,6 +395,8 @@ def reference(world):
             # (a sound copy of it known already makes the broken duplicate irrelevant)
             if c not in parsed:
                 failed[c] = set(['failed'])
+                if c == mods[0]:
+                    broken_imports[c] = list(imports.get(m, []))   # (the first module of a file carries m's import edges)
         owner = mods[0]   # the module of the file that carries the import edges of m
         mods = [c for c in mods if c not in bad]
         for c in mods:
@@ -398,7 +410,7 @@ def reference(world):
             # modules called differently: the module m does not exist
             failed[m] = set(['missing'])
         if owner in mods:
-            todo.extend(imports.get(m, []))   # imports are followed for modules whose symbol table was built
+            todo.extend(imports.get(m, []))
 
     ref = {'allowed': {}, 'writes': {}, 'payload': {}, 'gen': set(), 'nogen': set()}
     built = []
